@@ -236,6 +236,25 @@ pub fn histories(cfg: &CfgSpec, tier: &str) -> Vec<Case> {
             ok(Op::AcceptOwnership { sender: P::Nominee }),
         ],
     );
+    // reconfiguration of channel, staker and collector: the authenticated hook accounts follow the current configuration
+    add(
+        "reconfig",
+        vec![
+            resume(),
+            ok(stake(P::U(0), MintTo::None, vec![])),
+            ok(unstake(0)),
+            H::Advance(DAY),
+            ok(Op::Submit { sender: P::U(1) }),
+            ok(Op::UpdateConfig { sender: P::Admin, sections: crate::cfgops::S_NATIVE | crate::cfgops::S_PROTOCOL | crate::cfgops::S_KEEP_DENOM }),
+            fails(rewards()),
+            fails(Op::Rewards { sender: P::HookStaker2, funds: Funds::Native, faults: vec![] }),
+            ok(Op::Rewards { sender: P::HookCollector2, funds: Funds::Native, faults: vec![] }),
+            H::Advance(UNBOND),
+            fails(recv(1)),
+            fails(Op::ReceiveUnstaked { sender: P::HookCollector2, batch: 1, funds: Funds::Native }),
+            ok(Op::ReceiveUnstaked { sender: P::HookStaker2, batch: 1, funds: Funds::Native }),
+        ],
+    );
     // admin re-bases the totals with LST = 0 < staked: the next stake sweeps stake the contract does not hold
     add("resume-sweep", vec![ok(Op::ResumeStaked { sender: P::Admin }), ok(stake(P::U(0), MintTo::None, vec![])), H::Do(Op::FeeWithdraw { sender: P::Admin }, cfg.treasury)]);
     if tier == "thorough" {
